@@ -91,6 +91,19 @@ Section Spec.
   Definition closed_b (S : list name) : bool :=
     forallb (fun y => mem y S || negb (existsb (fun x => edge_b x y) S)) declared.
 
+  (* the canonical outcome of one successful mutation (used by the oracle to
+     follow the keywords of a top-level update / transform / reset one by one):
+     a holds v, every other member of the closure cl is back at its default or
+     gone *)
+  Definition clear_one (d : dict) (y : name) : dict :=
+    match default_of cd y with Some dv => set d y dv | None => remove d y end.
+  Definition clear_rest (cl : list name) (a : name) (d : dict) : dict :=
+    fold_left (fun acc y => if y =? a then acc else clear_one acc y) cl d.
+  Definition spec_assign (cl : list name) (a : name) (v : V) (d : dict) : dict :=
+    clear_rest cl a (set d a v).
+  Definition spec_delete (cl : list name) (a : name) (d : dict) : dict :=
+    clear_rest cl a (clear_one d a).
+
   Definition opt_eqb (a b : option V) : bool :=
     match a, b with
     | Some x, Some y => veqb x y
@@ -134,3 +147,6 @@ Arguments closure_cleared_b {V} cd veqb cl a d'.
 Arguments unrelated_kept_b {V} veqb ns cl d d'.
 Arguments same_entries_b {V} veqb ns d d'.
 Arguments opt_eqb {V} veqb a b.
+Arguments clear_one {V} cd d y.
+Arguments spec_assign {V} cd cl a v d.
+Arguments spec_delete {V} cd cl a d.
